@@ -121,6 +121,15 @@ def gadget(kind, n, tag, rnd):
         for i in range(n):
             L += ['def %s():' % v(i), '    return {"k": (%s(), [%s()])}' % (v(i + 1), v(i + 2)), '']
         U = [v(0) + '()["k"][0]', v(0) + '()["k"][1][0].']
+    elif kind == 'annotated_recursion':
+        # (mutually) recursive functions and a recursive method whose return annotation cannot be
+        # resolved (class of a library that is not installed, a name that does not exist)
+        ann = rnd.choice(['"NoSuchName%s"' % tag, 'missing_lib_%s.Thing' % tag, '"%s_later.Node"' % tag])
+        for i in range(n):
+            L += ['def %s(k) -> %s:' % (v(i), ann), '    if k:', '        return %s(k - 1)' % v(i + 1),
+                  '    return %s(k)' % v(i), '']
+        L += ['class %s_K:' % tag, '    def walk(self, k) -> %s:' % ann, '        return self.walk(k - 1).walk(k)', '']
+        U = [v(0) + '(3)', v(0) + '(3).', '%s_K().walk(2)' % tag, '%s_K().walk(2).' % tag]
     else:
         raise ValueError(kind)
     return L, U
@@ -129,7 +138,7 @@ def gadget(kind, n, tag, rnd):
 GADGETS = ['assign', 'assign_fwd', 'call', 'call_unbounded', 'inherit', 'self_inherit', 'attr',
            'container', 'decorator', 'property', 'getattr', 'generator', 'lambda', 'closure',
            'param_default', 'annotation', 'dict_self_attr', 'list_self_attr', 'type_comment_self',
-           'annotation_self_call', 'mutual_literals']
+           'annotation_self_call', 'mutual_literals', 'annotated_recursion']
 
 
 def cyclic_graph(rnd, max_nodes=40, getattr_max=3):
